@@ -4,10 +4,19 @@ Case kinds
   cfg      one of the eight <Encoding>[Mate]SelectionConfiguration classes constructed directly with a
            recording generator; model = XConfig.sample* replayed with the recorded draws;
            Spec = XConfig.spec* (Lean, `c07.spec`) on the implementation's xconfig
+  history  ONE configuration object: constructed, sampled again and again (with / without return value), its
+           decision re-assigned in between; the decisions are rows of one 2-D solution array (C / Fortran /
+           strided; int8 .. int64 / uint / bool), rng=None option; every table is checked against the decision
+           that was current when it was sampled
   select   the public select() of a protocol family x encoding.  `algo = sorting`: the exact optimiser
-           (SortingSubsetOptimizationAlgorithm), run on the population and on a permuted/relabelled
-           copy (truncation + equivariance clauses).  `algo = stub`: an optimiser that returns a
-           scripted solution set (single- or multi-objective branch; argmax clause)
+           (SortingSubsetOptimizationAlgorithm), run on the population and on a permuted/relabelled copy
+           (optionally through the SAME protocol object): truncation over ALL candidates enumerated
+           independently (Lean xmapix), decision space covers every candidate, equivariance.
+           `algo = stub`: an optimiser that returns a scripted solution set (single- or multi-objective
+           branch, optionally with scripted constraint violations; argmax clause); a second table is sampled
+           from the returned configuration and the solution object must stay as returned
+  problem  table-driven: problem() of EVERY concrete protocol class (57): the decision space against
+           SelProt.subsetSpace / vectorSpace, Spec `specSpace` + `specCover`
   xmapix   core/util/array.py xmapix/triuix/triudix against the model
 """
 import contextlib
@@ -122,6 +131,12 @@ def _mods():
         mod = g(sel + stem + "Selection")
         for e in ("Subset", "Integer", "Binary", "Real"):
             _M["fam"][(f, e.lower())] = getattr(mod, stem + e + "Selection")
+    # families that exist in the subset encoding only
+    for f, stem in (("gb", "GenotypeBuilder"), ("mogs", "MultiObjectiveGenomic"), ("opv", "OptimalPopulationValue"),
+                    ("pafd", "PopulationAlleleFrequencyDistance"), ("pau", "PopulationAlleleUnavailability")):
+        _M["fam"][(f, "subset")] = getattr(g(sel + stem + "Selection"), stem + "SubsetSelection")
+    _M["weightfn"] = g(sel + "weightfn")
+    _M["targetfn"] = g(sel + "targetfn")
     _M["dhcross"] = g("pybrops.breed.prot.mate.TwoWayDHCross").TwoWayDHCross
     _M["vmatfcty"] = g("pybrops.model.vmat.fcty.DenseTwoWayDHAdditiveGeneticVarianceMatrixFactory").DenseTwoWayDHAdditiveGeneticVarianceMatrixFactory
     _M["haldane"] = g("pybrops.popgen.gmap.HaldaneMapFunction").HaldaneMapFunction
@@ -158,8 +173,9 @@ def _pgmat(ntaxa, geno=None, names=None):
 
 def _same_pop(a, b):
     """the configuration refers to the population that was passed (the same object or an equal copy)"""
-    return a is b or (a.ntaxa == b.ntaxa and list(map(str, a.taxa)) == list(map(str, b.taxa))
-                      and numpy.array_equal(a.mat, b.mat))
+    def labels(x):
+        return None if x.taxa is None else list(map(str, x.taxa))
+    return a is b or (a.ntaxa == b.ntaxa and labels(a) == labels(b) and numpy.array_equal(a.mat, b.mat))
 
 
 def _decn_array(enc, decn):
@@ -244,35 +260,52 @@ class C07(Prop):
     N_QUICK = 1500
     N_THOROUGH = 40000
     CORRESPONDENCE = "functional"
-    RULE = ("cfg (62%): the 8 configuration classes constructed directly, 2-7 candidates, 1-4 crosses x 1-4 parents "
-            "(22% with 3-4 parents per cross and so few members that [a,b,a] patterns are unavoidable), decisions that "
-            "do / do not divide the number of slots, unsorted duplicate-free subsets, zero and tied contributions, dyadic "
-            "real weights, every generator draw recorded (+ scripted SUS offsets 0, 1/1024 .. 3/4 of the spacing and "
-            "spacing-1ulp); select (35%): EBV/GEBV/Random/OCS(+inequality constraint)/OHV/UC/MEH/MGR/GWGEBV/WGS/"
-            "FamilyEBV/L2/EMBV protocols in the four encodings (OHV/UC/EMBV: the four mate encodings), unsorted taxa "
-            "labels on pgmat and bvmat, with the exact sorting optimiser on the population and on a permuted, renamed "
-            "copy, or a stub optimiser returning scripted single-/multi-objective solution sets (default and custom "
-            "ndset_trans, both signs of ndset_wt, negative / non-unit per-objective obj_wt, tied / duplicated / constant "
-            "objectives), scalar and per-cross nmating/nprogeny; xmapix (3%).  Non-trivial = cfg with >= 2 crosses or "
-            ">= 2 parents and >= 2 distinct entries; select/sorting with a candidate left out; select/stub "
-            "multi-objective with >= 2 front points or single-objective; xmapix with >= 2 rows")
+    RULE = ("cfg (50%): the 8 configuration classes constructed directly, 2-7 candidates, 1-4 crosses x 1-4 parents "
+            "(22% with 3-4 parents per cross and so few members that [a,b,a] patterns are unavoidable; 3% with 130-300 "
+            "candidates / 136-276 candidate crosses and members beyond index 127 / 255; 1% with 36 slots, thorough: ~50), "
+            "decisions that do / do not divide the number of slots, unsorted duplicate-free subsets, zero and tied "
+            "contributions, dyadic real weights, every generator draw recorded (+ scripted SUS offsets 0, 1/1024 .. 3/4 of "
+            "the spacing and spacing-1ulp); select (34%): EBV/GEBV/Random/OCS(+inequality constraint)/OHV/UC/MEH/MGR/GWGEBV/"
+            "WGS/FamilyEBV/L2/EMBV in the four encodings + GenotypeBuilder/MOGS/OPV/PAFD/PAU subset (OHV/UC/EMBV: the four mate "
+            "encodings, unique_parents True and False, OHV with 1-4 parents per cross), unsorted taxa labels or none, "
+            "unphased gmat distinct from pgmat, breeding values with a 25000 / 2^30 offset, best candidates at the high "
+            "indices, with the exact sorting optimiser on the population and on a permuted, renamed copy (40% through the "
+            "same protocol object), or a stub optimiser returning scripted single-/multi-objective solution sets (default "
+            "and custom ndset_trans, both signs of ndset_wt, negative / non-unit obj_wt, tied / duplicated / constant "
+            "objectives, 40% with constraints and a front mixing violating and clean points), scalar and per-cross "
+            "nmating/nprogeny; history (9%): one configuration object sampled 3-8 times with re-assigned decisions, "
+            "dtype/layout forms; problem (4% + one sweep over all 57 protocol classes per run); xmapix (3%, up to 4 parents). "
+            "Non-trivial = cfg with >= 2 crosses or >= 2 parents and >= 2 distinct entries; select/sorting with a candidate "
+            "left out; select/stub multi-objective with >= 2 front points or single-objective; history with >= 2 samples and "
+            ">= 2 distinct entries; problem with >= 3 taxa; xmapix with >= 2 rows")
     TRUSTED = ["stochastic_universal_sampling is inside the model (C17's Sampling.susDraws, exact rational arithmetic); "
                "binary64 is abstracted as exact arithmetic: a model/implementation difference is waived only when the "
                "spacing is not dyadic AND a pointer lies within 2^-40 of a cumulative-weight boundary (0 of ~1300 real "
                "cases per run so far)",
                "problem objects (objective evaluation) are entered through their evalfn (C05 covers them); for EBV/GEBV "
-               "subset selection the criterion is additionally recomputed from the raw inputs",
+               "subset selection the criterion is additionally recomputed from the raw inputs; the criterion of a candidate "
+               "the problem does not offer is obtained from the same evalfn at its cross-map position",
                "numpy RandomState.choice(replace=False)/shuffle deliver sub-multisets / permutations (each recorded draw is "
                "validated by the driver); RecRNG.shuffle applies x[permutation(n)] instead of numpy's in-place algorithm; "
-               "numpy's argsort order of tied weights is taken from numpy (oracle sigma)",
+               "numpy's argsort order of tied weights is taken from numpy (oracle sigma); numpy's argsort in the sorting "
+               "optimiser is not stable, so with tied criterion values the implementation's choice is compared by value",
                "optimisers other than SortingSubsetOptimizationAlgorithm are replaced by a stub returning a scripted "
-               "solution set (C06 covers them)"]
+               "solution set (C06 covers them)",
+               "the two classes of UnconstrainedSelectionProtocol (old interface without problem()) are not exercised"]
     ASSUMPTIONS = ["'within one of the proportional share' is read as |count - share| <= 1 (the weakest reading)",
                    "the exchange clause applies to individual-based configurations; in mate-selection configurations an "
                    "exchange of entries would create crosses outside the solution, so membership/multiplicity apply there",
-                   "subset decisions are duplicate-free; contribution vectors have a positive sum; ncross, nparent >= 1",
+                   "subset decisions are duplicate-free and unordered (a reordered decision is the same solution); "
+                   "contribution vectors have a positive sum; ncross, nparent >= 1",
                    "equivariance under permutation is checked on chosen names when criterion values are distinct and on "
-                   "chosen criterion values otherwise (ties are broken by position in the code)"]
+                   "chosen criterion values otherwise (ties are broken by position in the code)",
+                   "'exactly the best candidates' ranges over ALL admissible candidates of the passed population (every "
+                   "individual, resp. every ascending parent tuple): a decision space that withholds a candidate from the "
+                   "optimiser is reported as a violation on the problem that withholds it",
+                   "'the non-dominated solution that maximises the declared preference transformation' ranges over the whole "
+                   "solution set returned by the optimiser, whatever its constraint-violation columns say",
+                   "a configuration that leaves its decision array modified in place is a broken correspondence, not a "
+                   "violation, as long as every table it produces is right for the decision that was assigned"]
 
     # ------------------------------------------------------------------ corpus
     def corpus(self):
@@ -324,6 +357,84 @@ class C07(Prop):
         c.append({"kind": "xmapix", "ntaxa": 4, "nparent": 2, "unique": True})
         c.append({"kind": "xmapix", "ntaxa": 3, "nparent": 3, "unique": False})
         c.append({"kind": "xmapix", "ntaxa": 2, "nparent": 3, "unique": True})
+        c += self._corpus_round3()
+        return c
+
+    def _corpus_round3(self):
+        """classes of inputs added in round 3 (one hand-written representative each; the generators vary them)"""
+        import random as _r
+        rng = _r.Random(20240929)
+        c = []
+
+        def pop(n, nv=4, asc=False):
+            geno = [[[rng.randint(0, 1) for _ in range(nv)] for _ in range(n)] for _ in range(2)]
+            if asc:
+                order = sorted(range(n), key=lambda i: sum(geno[0][i]) + sum(geno[1][i]))
+                geno = [[geno[ph][i] for i in order] for ph in range(2)]
+            return {"geno": geno, "names": ["n%04d" % v for v in rng.sample(range(10000), n)],
+                    "u_a": [[rng.choice([1, 2, 3, 5, 8])] for _ in range(nv)],
+                    "names2": ["m%04d" % v for v in rng.sample(range(10000), n)], "perm": list(range(n))[::-1]}
+        # three- and four-way crosses in which parents may repeat: the cross map has C(n+d-1, d) rows and the best
+        # crosses (made of the high-index individuals) sit in its tail; exact optimiser, reversed population
+        for n, d in ((5, 3), (4, 4), (6, 3)):
+            c.append(dict({"kind": "select", "family": "ohv", "enc": "mate_subset", "algo": "sorting", "ntaxa": n, "ncross": 2,
+                           "nparent": d, "seed": 21 + n, "nmating": 1, "nprogeny": 2, "bv": list(range(n)), "unscale": False,
+                           "obj_wt": 1, "nobj": 1, "unique": False}, **pop(n, 6, asc=True)))
+        # constrained multi-objective run: the front lists points WITH constraint violation before the preferred one
+        base = dict({"kind": "select", "algo": "stub", "ntaxa": 4, "ncross": 2, "nparent": 2, "seed": 31, "nmating": 1,
+                     "nprogeny": 1, "bv": [7, 3, 9, 1], "unscale": False, "obj_wt": 1, "nobj": 2, "obj_wt_vec": [1, 1],
+                     "soln_obj": [[0, 3], [4, 0], [2, 2], [3, 3]], "ndset_wt": 1, "ndset_trans": "sum", "ncv": [1, 1],
+                     "soln_cv": [[1, 0], [0, "1/2"], [0, 0], [0, 0]]}, **pop(4))
+        base.pop("names2"), base.pop("perm")
+        c.append(dict(base, family="ebv", enc="real", soln_decn=[[1, 0, 0, 0], [0, 1, 0, 0], [0, 0, "1/2", "1/2"], ["1/4", "1/4", "1/4", "1/4"]]))
+        c.append(dict(base, family="gebv", enc="subset", soln_decn=[[0, 1, 2, 3], [3, 2, 1, 0], [0, 2, 1, 3], [1, 3, 0, 2]][:4]))
+        c.append(dict(base, family="ocs", enc="integer", soln_decn=[[4, 0, 0, 0], [0, 4, 0, 0], [2, 2, 0, 0], [1, 1, 1, 1]]))
+        c.append(dict(base, family="wgs", enc="binary", soln_decn=[[1, 0, 0, 0], [0, 1, 0, 0], [1, 1, 0, 0], [1, 1, 1, 1]]))
+        c.append(dict(base, family="ohv", enc="mate_subset", unique=True, soln_decn=[[0, 1], [2, 3], [4, 5], [1, 4]]))
+        c.append(dict(base, family="uc", enc="mate_real", unique=True,
+                      soln_decn=[[1, 0, 0, 0, 0, 0], [0, 1, 0, 0, 0, 0], [0, 0, "1/2", "1/2", 0, 0], ["1/4"] * 4 + [0, 0]]))
+        c.append(dict(base, family="ohv", enc="mate_integer", unique=False,
+                      soln_decn=[[2] + [0] * 9, [0, 2] + [0] * 8, [1, 1] + [0] * 8, [0] * 8 + [1, 1]]))
+        c.append(dict(base, family="embv", enc="mate_binary", unique=True,
+                      soln_decn=[[1, 0, 0, 0, 0, 0], [0, 1, 0, 0, 0, 0], [0, 0, 1, 1, 0, 0], [1, 1, 0, 0, 0, 0]]))
+        # sizes past internal constants: > 127 uses of one candidate cross, > 1024 crosses drawn, > 1024 candidate
+        # crosses (OHV's chunk size `mem`), > 127 candidates for the exact optimiser
+        c.append({"kind": "cfg", "enc": "mate_subset", "ntaxa": 4, "ncross": 300, "nparent": 2, "unique": True, "decn": [5, 0], "seed": 3})
+        c.append({"kind": "cfg", "enc": "mate_integer", "ntaxa": 4, "ncross": 1100, "nparent": 2, "unique": False,
+                  "decn": [2, 0, 0, 1, 0, 0, 0, 0, 0, 2], "seed": 4})
+        c.append({"kind": "cfg", "enc": "mate_real", "ntaxa": 4, "ncross": 130, "nparent": 2, "unique": True,
+                  "decn": ["1/2", 0, "1/4", 0, 1, "1/4"], "seed": 5})
+        c.append(dict({"kind": "select", "family": "ebv", "enc": "subset", "algo": "sorting", "ntaxa": 130, "ncross": 5, "nparent": 2,
+                       "seed": 7, "nmating": 1, "nprogeny": 1, "bv": rng.sample(range(-500, 500), 130), "unscale": True,
+                       "obj_wt": 1, "nobj": 1}, **dict(pop(130), perm=rng.sample(range(130), 130))))
+        c.append(dict({"kind": "select", "family": "ohv", "enc": "mate_subset", "algo": "sorting", "ntaxa": 46, "ncross": 3, "nparent": 2,
+                       "seed": 8, "nmating": 1, "nprogeny": 1, "bv": list(range(46)), "unscale": True, "obj_wt": 1, "nobj": 1,
+                       "unique": True}, **pop(46, 6)))
+        # magnitudes: a large common offset with small differences; exact ties
+        c.append(dict({"kind": "select", "family": "ebv", "enc": "subset", "algo": "sorting", "ntaxa": 6, "ncross": 1, "nparent": 3,
+                       "seed": 9, "nmating": 1, "nprogeny": 1, "bv": [2 ** 30 + 4, 2 ** 30 - 8, 2 ** 30 + 12, 2 ** 30, 2 ** 30 + 8, 2 ** 30 - 4],
+                       "unscale": True, "obj_wt": 1, "nobj": 1}, **dict(pop(6), perm=[3, 5, 0, 2, 1, 4])))
+        c.append(dict({"kind": "select", "family": "ebv", "enc": "subset", "algo": "sorting", "ntaxa": 6, "ncross": 1, "nparent": 2,
+                       "seed": 10, "nmating": 1, "nprogeny": 1, "bv": [5, 9, 9, 1, 9, 5], "unscale": False, "obj_wt": 1, "nobj": 1},
+                      **dict(pop(6), perm=[3, 5, 0, 2, 1, 4])))
+        # one configuration object sampled repeatedly with its decision re-assigned (rows of a Fortran-ordered int8 /
+        # bool solution matrix)
+        c.append({"kind": "history", "enc": "binary", "ntaxa": 5, "ncross": 2, "nparent": 2, "seed": 11, "dtype": "bool",
+                  "decns": [[1, 0, 1, 0, 0], [0, 0, 0, 1, 1], [1, 1, 1, 1, 1]], "layout": "F",
+                  "steps": ["sample", "read", "set1", "sample", "sample_nr", "set2", "sample", "set0", "sample"]})
+        c.append({"kind": "history", "enc": "integer", "ntaxa": 4, "ncross": 2, "nparent": 2, "seed": 12, "dtype": "int8",
+                  "decns": [[2, 0, 2, 0], [0, 1, 0, 1], [1, 1, 1, 1]], "layout": "strided",
+                  "steps": ["sample", "set1", "sample", "set2", "sample_nr", "set0", "sample"], "nmating": [1, 3]})
+        c.append({"kind": "history", "enc": "subset", "ntaxa": 6, "ncross": 2, "nparent": 3, "seed": 13, "dtype": "int32",
+                  "decns": [[5, 0, 3], [1, 2, 4]], "layout": "F", "steps": ["sample", "set1", "sample", "sample", "set0", "sample_nr"]})
+        c.append({"kind": "history", "enc": "real", "ntaxa": 4, "ncross": 2, "nparent": 2, "seed": 14,
+                  "decns": [["1/2", 0, "1/2", 0], [0, "1/4", 0, "3/4"]], "layout": "F", "steps": ["sample", "set1", "sample", "set0", "sample"]})
+        c.append({"kind": "history", "enc": "mate_subset", "ntaxa": 4, "ncross": 5, "nparent": 3, "unique": False, "seed": 15,
+                  "dtype": "int16", "decns": [[19, 3], [0, 7]], "layout": "strided", "xmap_order": "F",
+                  "steps": ["sample", "set1", "sample", "read", "sample_nr"]})
+        c.append({"kind": "history", "enc": "mate_binary", "ntaxa": 4, "ncross": 4, "nparent": 2, "unique": True, "seed": 16,
+                  "dtype": "bool", "decns": [[1, 0, 0, 0, 0, 1], [0, 1, 1, 0, 0, 0]], "layout": "F", "xmap_order": "F",
+                  "steps": ["sample", "set1", "sample", "set0", "sample"]})
         return c
 
     # ------------------------------------------------------------------ generation
@@ -337,6 +448,16 @@ class C07(Prop):
             nparent = rng.choice([3, 3, 4])
             ncross = rng.randint(2, 4 if nparent == 3 else 3)
             ntaxa = rng.randint(2, 6)
+        wide = rng.random() < 0.03       # candidate indices beyond 127 / 255 (narrow integer buffers)
+        many = (not wide) and rng.random() < 0.012 and not enc.startswith("mate_")   # > 32 slots, few members
+        if wide:
+            ntaxa = rng.choice([17, 24]) if enc.startswith("mate_") else rng.choice([130, 200, 300])
+            nparent = 2 if enc.startswith("mate_") else nparent
+        if many:
+            shapes = [(12, 3), (18, 2), (9, 4)]
+            if getattr(self, "_tier", "quick") == "thorough" and rng.random() < 0.12:
+                shapes = [(24, 2), (16, 3)]         # ~50 slots: seconds per case, thorough tier only
+            ncross, nparent, ntaxa = rng.choice(shapes) + (rng.randint(3, 6),)
         case = {"kind": "cfg", "enc": enc, "ntaxa": ntaxa, "ncross": ncross, "nparent": nparent,
                 "seed": rng.randrange(2 ** 31)}
         mate = enc.startswith("mate_")
@@ -356,6 +477,8 @@ class C07(Prop):
                 k = rng.choice([2, 2, 3, max(2, nslot // 2)])
             k = max(1, min(k, nopt))
             case["decn"] = rng.sample(range(nopt), k)
+            if wide:
+                case["decn"] = rng.sample(range(nopt - 40, nopt), min(k, 40))
         elif b == "binary":
             d = [1 if rng.random() < 0.5 else 0 for _ in range(nopt)]
             if not any(d):
@@ -379,27 +502,48 @@ class C07(Prop):
             if not any(d):
                 d[rng.randrange(nopt)] = 2
             den = rng.choice([1, 2, 4, 8])
-            case["decn"] = [canon.enc(Fraction(v, den)) for v in d]
+            scale = Fraction(1)
+            if rng.random() < 0.25:     # contributions of a tiny / a huge common magnitude (shares are scale-free)
+                scale = rng.choice([Fraction(1, 2 ** 40), Fraction(1, 2 ** 27), Fraction(2 ** 30)])
+            case["decn"] = [canon.enc(Fraction(v, den) * scale) for v in d]
             r = rng.random()
             if r < 0.08:
                 case["script"] = {"uniform": "zero"}
             elif r < 0.16:
                 case["script"] = {"uniform": rng.choice(["1/2", "1/4", "3/4", "1/1024"])}
+        if wide and b != "subset":
+            d = [0] * nopt
+            for i in rng.sample(range(nopt - 40, nopt), rng.randint(1, 3)):
+                d[i] = 1 if b in ("binary", "integer") else rng.choice([1, 2, 3])
+            if b == "integer" and nslot % sum(d) != 0:
+                d = [0] * nopt
+                d[nopt - 1 - rng.randrange(30)] = 1
+            case["decn"] = d if b != "real" else [canon.enc(Fraction(v, 2)) for v in d]
+            case.pop("script", None)
         return case
 
     def _gen_select(self, rng):
-        fam = rng.choice(["ebv", "ebv", "ebv", "gebv", "gebv", "random", "ocs", "ocs", "ohv", "uc",
-                          "meh", "mgr", "gwgebv", "wgs", "fam", "l2", "embv"])
+        fam = rng.choice(["ebv", "ebv", "ebv", "gebv", "gebv", "random", "ocs", "ocs", "ohv", "ohv", "ohv", "uc",
+                          "meh", "mgr", "gwgebv", "wgs", "fam", "l2", "embv", "gb", "mogs", "opv", "pafd", "pau"])
         ntaxa = rng.randint(3, 7)
         nvrnt = rng.choice([4, 6])
-        nparent = rng.choice([1, 2, 2, 3]) if fam not in ("ohv", "uc", "embv") else 2
+        nparent = rng.choice([1, 2, 2, 3])
+        if fam in ("uc", "embv"):
+            nparent = 2             # two-way variance factory / two-way DH mating protocol
+        elif fam == "ohv":
+            nparent = rng.choice([1, 2, 2, 3, 3, 4])    # multi-way crosses: cross maps of C(n+d-1, d) rows
+            if nparent == 4:
+                ntaxa = rng.randint(3, 5)
         ncross = rng.randint(1, 3)
         if fam in ("ohv", "uc", "embv"):
             enc = rng.choice(["mate_subset", "mate_subset", "mate_integer", "mate_binary", "mate_real"])
+        elif fam in ("gb", "mogs", "opv", "pafd", "pau"):
+            enc = "subset"
         else:
             enc = rng.choice(["subset", "subset", "subset", "integer", "binary", "real"])
         b = _base_enc(enc)
-        algo = "sorting" if (b == "subset" and fam in ("ebv", "gebv", "random", "ohv", "uc") and rng.random() < 0.6) else "stub"
+        algo = "sorting" if (b == "subset" and fam in ("ebv", "gebv", "random", "ohv", "uc", "embv", "wgs", "gwgebv")
+                             and rng.random() < 0.6) else "stub"
         case = {"kind": "select", "family": fam, "enc": enc, "algo": algo, "ntaxa": ntaxa, "ncross": ncross,
                 "nparent": nparent, "seed": rng.randrange(2 ** 31),
                 "nmating": rng.choice([1, 2, [rng.randint(1, 3) for _ in range(ncross)]]),
@@ -410,17 +554,32 @@ class C07(Prop):
         case["names"] = ["n%02d" % v for v in rng.sample(range(100), ntaxa)]
         case["u_a"] = [[rng.choice([-4, -2, -1, 1, 2, 3, 5, 8])] for _ in range(nvrnt)]
         bvs = rng.sample(range(-20, 40), ntaxa) if rng.random() < 0.8 else [rng.randint(0, 3) for _ in range(ntaxa)]
+        mag = rng.random()
+        if mag < 0.10:          # a large common offset with small differences (exactly representable)
+            off = rng.choice([25000, 2 ** 30])
+            bvs = [off + 4 * v for v in rng.sample(range(-8, 9), ntaxa)]
+        elif mag < 0.16:        # the best candidates at the HIGH indices / at the LOW indices
+            bvs = sorted(bvs, reverse=rng.random() < 0.5)
         case["bv"] = bvs
         case["unscale"] = rng.random() < 0.5
         case["obj_wt"] = rng.choice([1, 1, 1, -1])
-        if fam == "ohv":
-            case["unique"] = rng.random() < 0.6
-        if fam in ("uc", "embv"):
-            case["unique"] = True
+        if fam in ("ohv", "uc", "embv"):
+            case["unique"] = rng.random() < 0.5
+            if case["unique"] and nparent > ntaxa:
+                case["unique"] = False
+        if fam == "ohv" and rng.random() < 0.3:
+            # favourable alleles accumulate with the index: the best crosses sit in the tail of the cross map
+            order = sorted(range(ntaxa), key=lambda i: sum(geno[0][i]) + sum(geno[1][i]))
+            case["geno"] = geno = [[geno[ph][i] for i in order] for ph in range(2)]
+            case["u_a"] = [[abs(r[0])] for r in case["u_a"]]
         if fam == "ocs" and rng.random() < 0.5:
             case["constrained"] = True          # inequality constraint on the kinship norm
         if fam == "fam":
             case["taxa_grp"] = [rng.randint(1, 3) for _ in range(ntaxa)]
+        if fam in ("ebv", "gebv", "ohv", "wgs") and rng.random() < 0.12:
+            case["no_taxa"] = True
+        if fam in ("ebv", "gebv", "random", "ocs", "meh", "mgr", "gwgebv", "wgs", "fam", "ohv", "uc") and rng.random() < 0.3:
+            case["gmat_unphased"] = True
         if algo == "sorting":
             if enc == "subset" and fam != "random" and ncross * nparent > ntaxa:
                 case["ncross"] = ncross = 1
@@ -429,14 +588,25 @@ class C07(Prop):
                     case["nmating"] = 1
                 if isinstance(case["nprogeny"], list):
                     case["nprogeny"] = 1
+            if enc == "mate_subset":
+                nopt = len(self._candidates(case))
+                if ncross > nopt:
+                    case["ncross"] = ncross = nopt
+                    if isinstance(case["nmating"], list):
+                        case["nmating"] = 1
+                    if isinstance(case["nprogeny"], list):
+                        case["nprogeny"] = 1
             case["nobj"] = 1
-            case["perm"] = rng.sample(range(ntaxa), ntaxa)
+            case["reuse"] = rng.random() < 0.4      # the permuted population goes through the SAME protocol object
+            case["perm"] = rng.sample(range(ntaxa), ntaxa) if rng.random() < 0.8 else list(range(ntaxa))[::-1]
             case["names2"] = ["m%02d" % v for v in rng.sample(range(100), ntaxa)]
         else:
             # scripted solution set
             nobj = rng.choice([1, 1, 2, 2, 3])
             if fam == "ocs":
                 nobj = 2 if rng.random() < 0.7 else 1
+            if fam == "mogs":
+                nobj = 2
             case["nobj"] = nobj
             nsoln = 1 if nobj == 1 else rng.randint(1, 5)
             if enc.startswith("mate_"):
@@ -444,7 +614,7 @@ class C07(Prop):
                 ksub = ncross
             else:
                 nopt = ntaxa
-                ksub = ncross * nparent if fam not in ("random", "fam", "l2") else nparent
+                ksub = ncross * nparent if fam not in ("random", "fam", "l2", "gb", "opv") else nparent
             solns = []
             tries = 0
             while len(solns) < nsoln and tries < 50:
@@ -465,7 +635,7 @@ class C07(Prop):
                     d = [rng.choice([0, 1, 2, 3]) for _ in range(nopt)]
                     if not any(d):
                         d[rng.randrange(nopt)] = 1
-                    d = [canon.enc(Fraction(v, 4)) for v in d]
+                    d = [canon.enc(Fraction(v, case.setdefault("real_den", rng.choice([4, 4, 8, 1024, 2 ** 42])))) for v in d]
                 if d not in solns:
                     solns.append(d)
             if not solns:
@@ -474,6 +644,10 @@ class C07(Prop):
                 case["nprogeny"] = 1
                 solns = [[rng.randrange(nopt)]] if b == "subset" else solns
             case["soln_decn"] = solns
+            if rng.random() < 0.25:     # a second select() on the same protocol object with another population
+                case["reuse"] = True
+                case["perm"] = rng.sample(range(ntaxa), ntaxa)
+                case["names2"] = ["m%02d" % v for v in rng.sample(range(100), ntaxa)]
             style = rng.random()
             objs = [[rng.randint(0, 4) for _ in range(nobj)] for _ in solns]
             if style < 0.2 and nobj > 1:        # a constant objective
@@ -484,6 +658,25 @@ class C07(Prop):
             case["soln_obj"] = objs
             if nobj > 1:     # objectives to be increased / decreased, non-unit weights
                 case["obj_wt_vec"] = [rng.choice([1, -1, -1, 2, "1/2", -3]) for _ in range(nobj)]
+            if not case.get("constrained") and rng.random() < 0.4:
+                # constrained problem: the optimiser's solution set mixes points with and without constraint violation
+                ni, ne = rng.choice([(1, 0), (1, 0), (0, 1), (2, 1), (1, 1)])
+                case["ncv"] = [ni, ne]
+                style = rng.random()
+                q = len(solns)
+                if style < 0.45:        # violating points first, clean points last
+                    nbad = rng.randint(1, max(1, q - 1)) if q > 1 else rng.randint(0, 1)
+                    flags = [True] * nbad + [False] * (q - nbad)
+                elif style < 0.85:
+                    flags = [rng.random() < 0.5 for _ in range(q)]
+                else:
+                    flags = [True] * q
+                case["soln_cv"] = [[(rng.choice([1, 2, "1/2"]) if (f and rng.random() < 0.8) else 0) for _ in range(ni + ne)]
+                                   for f in flags]
+                for row, f in zip(case["soln_cv"], flags):
+                    if f and not any(Fraction(v) for v in row):
+                        row[rng.randrange(ni + ne)] = 1
+                case["soln_cv"] = [[canon.enc(Fraction(v)) for v in row] for row in case["soln_cv"]]
             case["ndset_wt"] = rng.choice([1, 1, -1, 2, "-1/2"])
             case["ndset_trans"] = rng.choice(["default", "default", "sum", "first", "negmax"])
             if case["ndset_trans"] == "default" and rng.random() < 0.5:
@@ -491,18 +684,127 @@ class C07(Prop):
                                         "vec_wt": [rng.choice([1, -1]) for _ in range(nobj)]}
         return case
 
-    def generate(self, rng, n, tier):
+    def _gen_history(self, rng):
+        """one configuration object: constructed, sampled again and again, its decision re-assigned in between;
+        the decisions are rows of one 2-D array (C / Fortran / strided) of a chosen integer / bool dtype"""
+        enc = rng.choice(ENC_IND * 2 + ENC_MATE)
+        mate = enc.startswith("mate_")
+        b = _base_enc(enc)
+        ntaxa = rng.randint(2, 6)
+        nparent = rng.choice([1, 2, 2, 3])
+        ncross = rng.randint(1, 6) if mate else rng.randint(1, 3)
+        case = {"kind": "history", "enc": enc, "ntaxa": ntaxa, "ncross": ncross, "nparent": nparent,
+                "seed": rng.randrange(2 ** 31)}
+        if mate:
+            case["unique"] = rng.random() < 0.5 and nparent <= ntaxa
+            nopt = len(list(_mods()["array"].xmapix(ntaxa, nparent, case["unique"])))
+            nslot = ncross
+            if rng.random() < 0.3:
+                case["xmap_order"] = "F"
+        else:
+            nopt, nslot = ntaxa, ncross * nparent
+        q = rng.randint(2, 3)
+        decns = []
+        if b == "subset":
+            k = max(1, min(nopt, rng.choice([1, 2, 3, nslot, nslot + 1])))
+            for _ in range(q):
+                decns.append(rng.sample(range(nopt), k))
+            case["dtype"] = rng.choice(["int64", "int64", "int32", "int16", "uint8"])
+        elif b == "binary":
+            for _ in range(q):
+                d = [1 if rng.random() < 0.5 else 0 for _ in range(nopt)]
+                if not any(d):
+                    d[rng.randrange(nopt)] = 1
+                decns.append(d)
+            case["dtype"] = rng.choice(["int64", "bool", "bool", "int8", "uint8", "int32"])
+        elif b == "integer":
+            for _ in range(q):      # sums that divide the number of slots (no remainder draw: D20 stays out of this stream)
+                d = [0] * nopt
+                for _ in range(rng.choice([x for x in range(1, nslot + 1) if nslot % x == 0])):
+                    d[rng.randrange(nopt)] += 1
+                decns.append(d)
+            case["dtype"] = rng.choice(["int64", "int32", "int8", "uint8", "uint16"])
+        else:
+            den = rng.choice([1, 2, 4, 8])
+            for _ in range(q):
+                d = [rng.choice([0, 0, 1, 1, 2, 3, 4, 6]) for _ in range(nopt)]
+                if not any(d):
+                    d[rng.randrange(nopt)] = 2
+                decns.append([canon.enc(Fraction(v, den)) for v in d])
+        case["decns"] = decns
+        case["layout"] = rng.choice([None, "F", "strided"])
+        steps = []
+        for _ in range(rng.randint(2, 5)):
+            steps.append(rng.choice(["sample", "sample", "sample_nr", "read", "set%d" % rng.randrange(q)]))
+        steps += ["set%d" % rng.randrange(1, q), "sample"]       # always: a re-assigned decision, then a fresh sample
+        if rng.random() < 0.5:
+            steps += ["set0", rng.choice(["sample", "sample_nr"])]
+        case["steps"] = steps
+        if not mate and rng.random() < 0.3:
+            case["nmating"] = [rng.randint(1, 4) for _ in range(ncross)]
+        if rng.random() < 0.15:
+            case["rng_none"] = True
+        return case
+
+    def _problem_table(self):
+        """every concrete protocol class: (family, encoding as the configuration sees it)"""
         out = []
-        for n_k in ((2, 1, True), (3, 2, True), (3, 2, False), (4, 3, True), (5, 2, False), (6, 3, True), (4, 1, False)):
+        for (fam, e) in sorted(_mods()["fam"]):
+            out.append((fam, ("mate_" + e) if fam in ("ohv", "uc", "embv") else e))
+        return out
+
+    def _gen_problem(self, rng, key=None):
+        fam, enc = key if key is not None else rng.choice(self._problem_table())
+        nparent = 2 if fam in ("uc", "embv") else rng.choice([1, 2, 2, 3])
+        ncross = rng.randint(1, 3)
+        ntaxa = rng.randint(max(3, ncross * nparent), max(4, ncross * nparent) + 3)
+        if enc.startswith("mate_") and nparent == 3:
+            ntaxa = min(ntaxa, 6)
+        nvrnt = rng.choice([4, 6])
+        nobj = 2 if fam in ("mogs", "ocs") and rng.random() < 0.6 else 1
+        if fam == "mogs":
+            nobj = 2
+        case = {"kind": "problem", "family": fam, "enc": enc, "algo": "stub", "ntaxa": ntaxa, "ncross": ncross,
+                "nparent": nparent, "seed": rng.randrange(2 ** 31),
+                # per-cross arrays with UNEQUAL entries, scalars, and the constant array
+                "nmating": rng.choice([1, 3, [rng.randint(1, 4) for _ in range(ncross)], [2] * ncross]),
+                "nprogeny": rng.choice([1, 7, [rng.randint(1, 9) for _ in range(ncross)]]),
+                "geno": [[[rng.randint(0, 1) for _ in range(nvrnt)] for _ in range(ntaxa)] for _ in range(2)],
+                "names": ["n%02d" % v for v in rng.sample(range(100), ntaxa)],
+                "u_a": [[rng.choice([-4, -2, -1, 1, 2, 3, 5, 8])] for _ in range(nvrnt)],
+                "bv": rng.sample(range(-20, 40), ntaxa), "unscale": rng.random() < 0.5, "obj_wt": rng.choice([1, -1]),
+                "nobj": nobj}
+        if nobj > 1:
+            case["obj_wt_vec"] = [rng.choice([1, -1, 2]) for _ in range(nobj)]
+        if fam in ("ohv", "uc", "embv"):
+            case["unique"] = rng.random() < 0.5
+        if fam == "fam":
+            case["taxa_grp"] = [rng.randint(1, 3) for _ in range(ntaxa)]
+        if rng.random() < 0.3:
+            case["ncv"] = list(rng.choice([(1, 0), (0, 1), (2, 1)]))
+        return case
+
+    def generate(self, rng, n, tier):
+        self._tier = tier
+        out = []
+        for n_k in ((2, 1, True), (3, 2, True), (3, 2, False), (4, 3, True), (5, 2, False), (6, 3, True), (4, 1, False),
+                    (4, 3, False), (3, 4, False), (5, 4, True)):
             out.append({"kind": "xmapix", "ntaxa": n_k[0], "nparent": n_k[1], "unique": n_k[2]})
+        # table-driven: the decision space of EVERY protocol class, once per run
+        for key in self._problem_table():
+            out.append(self._gen_problem(rng, key))
         while len(out) < n:
             r = rng.random()
-            if r < 0.62:
+            if r < 0.50:
                 out.append(self._gen_cfg(rng))
-            elif r < 0.97:
+            elif r < 0.84:
                 out.append(self._gen_select(rng))
+            elif r < 0.93:
+                out.append(self._gen_history(rng))
+            elif r < 0.97:
+                out.append(self._gen_problem(rng))
             else:
-                out.append({"kind": "xmapix", "ntaxa": rng.randint(1, 6), "nparent": rng.randint(1, 3),
+                out.append({"kind": "xmapix", "ntaxa": rng.randint(1, 6), "nparent": rng.randint(1, 4),
                             "unique": rng.random() < 0.5})
         return out
 
@@ -578,6 +880,8 @@ class C07(Prop):
         geno = [[case["geno"][ph][i] for i in idx] for ph in range(2)]
         nm = [case["names"][i] for i in idx] if names is None else list(names)
         pg = _pgmat(n, geno, nm)
+        if case.get("no_taxa"):     # optional label arrays absent
+            pg.taxa = None
         grp = None
         if case.get("taxa_grp"):
             grp = numpy.array([case["taxa_grp"][i] for i in idx])
@@ -586,15 +890,33 @@ class C07(Prop):
             pg.vrnt_xoprob = numpy.array([0.5 if j in (0, pg.nvrnt // 2) else 0.125 for j in range(pg.nvrnt)])
         nobj = case.get("nobj", 1)
         ntrait = nobj if case["family"] in ("ebv", "gebv", "random", "ohv", "uc", "gwgebv", "wgs", "fam", "embv") else 1
+        if case.get("ntrait"):
+            ntrait = int(case["ntrait"])
         bv = numpy.array([[float(case["bv"][i]) + 3.0 * t * ((i * 7) % 5) for t in range(ntrait)] for i in idx])
         loc = numpy.array([2.0] * ntrait)
         scl = numpy.array([4.0] * ntrait)
-        bvmat = M["bvmat"]((bv - loc) / scl, location=loc, scale=scl, taxa=numpy.array(nm, dtype=object), taxa_grp=grp,
+        bvmat = M["bvmat"]((bv - loc) / scl, location=loc, scale=scl,
+                           taxa=None if case.get("no_taxa") else numpy.array(nm, dtype=object), taxa_grp=grp,
                            trait=numpy.array(["y%d" % t for t in range(ntrait)], dtype=object))
         u_a = numpy.array([[float(r[0]) * (1 + t) + t * (j % 3) for t in range(ntrait)] for j, r in enumerate(case["u_a"])])
         gp = M["gpmod"](beta=numpy.array([[1.0] * ntrait]), u_misc=None, u_a=u_a,
                         trait=numpy.array(["y%d" % t for t in range(ntrait)], dtype=object))
         return pg, bvmat, gp, ntrait
+
+    @staticmethod
+    def _gmat_of(case, pg):
+        """the `gmat` argument: the genomes themselves, or (option `gmat_unphased`) a separate UNPHASED genotype
+        matrix of the same individuals — an object that cannot stand in for `pgmat` in the configuration"""
+        if not case.get("gmat_unphased"):
+            return pg
+        M = _mods()
+        if "gmatcls" not in M:
+            import importlib
+            M["gmatcls"] = importlib.import_module("pybrops.popgen.gmat.DenseGenotypeMatrix").DenseGenotypeMatrix
+        gm = M["gmatcls"](mat=pg.mat.sum(0).astype("int8"), taxa=pg.taxa, taxa_grp=pg.taxa_grp, vrnt_chrgrp=pg.vrnt_chrgrp,
+                          vrnt_phypos=pg.vrnt_phypos, vrnt_genpos=pg.vrnt_genpos, ploidy=2)
+        gm.group_vrnt()
+        return gm
 
     def _protocol(self, case, ntrait, soalgo, moalgo, rng, ndset):
         M = _mods()
@@ -622,7 +944,7 @@ class C07(Prop):
             kw.update(ntrait=ntrait, nhaploblk=2, unique_parents=bool(case["unique"]))
         elif fam == "uc":
             kw.update(ntrait=ntrait, nself=0, upper_percentile=0.1, vmatfcty=M["vmatfcty"](), gmapfn=M["haldane"](),
-                      unique_parents=True)
+                      unique_parents=bool(case.get("unique", True)))
         elif fam in ("meh",):
             pass
         elif fam in ("mgr", "l2"):
@@ -633,7 +955,22 @@ class C07(Prop):
             kw.update(ntrait=ntrait)
         elif fam == "embv":
             kw.update(ntrait=ntrait, nrep=2, mateprot=M["dhcross"](rng=numpy.random.RandomState(case["seed"] % 1000)),
-                      unique_parents=True)
+                      unique_parents=bool(case.get("unique", True)))
+        elif fam in ("gb",):
+            kw.update(ntrait=ntrait, nhaploblk=2, nbestfndr=1)
+        elif fam in ("opv",):
+            kw.update(ntrait=ntrait, nhaploblk=2)
+        elif fam in ("mogs", "pafd", "pau"):
+            kw.update(ntrait=ntrait, weight=M["weightfn"].weight_absolute, target=M["targetfn"].target_positive)
+        ncv = case.get("ncv")
+        if ncv:         # constrained problems (a rarely used option): one violation function per constraint
+            ni, ne = int(ncv[0]), int(ncv[1])
+            if ni:
+                kw.update(nineqcv=ni, ineqcv_wt=numpy.ones(ni),
+                          ineqcv_trans=lambda decnvec, latentvec, **k: numpy.zeros(ni))
+            if ne:
+                kw.update(neqcv=ne, eqcv_wt=numpy.ones(ne),
+                          eqcv_trans=lambda decnvec, latentvec, **k: numpy.zeros(ne))
         return cls(**kw)
 
     def _stub_algo(self, case, store):
@@ -651,21 +988,53 @@ class C07(Prop):
             def minimize(self, prob, miscout=None, **kwargs):
                 store["prob"] = prob
                 q = len(decns)
+                cv = numpy.array([[float(Fraction(v)) for v in r] for r in case["soln_cv"]],
+                                 dtype=float).reshape(q, prob.nineqcv + prob.neqcv) if case.get("soln_cv") \
+                    else numpy.zeros((q, prob.nineqcv + prob.neqcv))
                 return Soln(ndecn=prob.ndecn, decn_space=prob.decn_space, decn_space_lower=prob.decn_space_lower,
                             decn_space_upper=prob.decn_space_upper, nobj=prob.nobj, obj_wt=prob.obj_wt,
                             nineqcv=prob.nineqcv, ineqcv_wt=prob.ineqcv_wt, neqcv=prob.neqcv, eqcv_wt=prob.eqcv_wt,
                             nsoln=q, soln_decn=decns.copy(), soln_obj=objs.copy(),
-                            soln_ineqcv=numpy.zeros((q, prob.nineqcv)), soln_eqcv=numpy.zeros((q, prob.neqcv)))
+                            soln_ineqcv=cv[:, :prob.nineqcv].copy(), soln_eqcv=cv[:, prob.nineqcv:].copy())
         return Stub()
 
-    def _recording_sorting(self, store):
+    @staticmethod
+    def _candidates(case):
+        """every admissible candidate of the passed population, enumerated independently of pybrops: individuals
+        0..n-1, resp. the ascending parent tuples (strictly ascending when parents must be unique)"""
+        import itertools
+        n = case["ntaxa"]
+        if not case["enc"].startswith("mate_"):
+            return [[i] for i in range(n)]
+        f = itertools.combinations if case.get("unique", True) else itertools.combinations_with_replacement
+        return [list(t) for t in f(range(n), case["nparent"])]
+
+    def _recording_sorting(self, store, case):
         M = _mods()
         Sorting = M["sorting"]
+        cands = self._candidates(case)
 
         class RecSorting(Sorting):
             def minimize(self, prob, miscout=None, **kwargs):
                 store["prob"] = prob
                 store["single_obj"] = [float(prob.evalfn(numpy.array([e]))[0][0]) for e in prob.decn_space]
+                store["space"] = [int(e) for e in prob.decn_space]
+                # the criterion of EVERY candidate, whether or not the problem offers it to the optimiser
+                xm = getattr(prob, "decn_space_xmap", None)
+                if xm is None:
+                    loc = {(i,): i for i in range(case["ntaxa"])}
+                else:
+                    loc = {}
+                    for i, r in enumerate(numpy.asarray(xm).tolist()):
+                        loc.setdefault(tuple(sorted(int(v) for v in r)), i)
+                full = []
+                for t in cands:
+                    i = loc.get(tuple(t))
+                    try:
+                        full.append(None if i is None else float(prob.evalfn(numpy.array([i]))[0][0]))
+                    except Exception:
+                        full.append(None)
+                store["full_obj"] = full
                 return super().minimize(prob, miscout=miscout, **kwargs)
         return RecSorting()
 
@@ -685,31 +1054,41 @@ class C07(Prop):
             d["ndset_trans_kwargs"] = {k: numpy.array(v, dtype=float) for k, v in case["ndset_kwargs"].items()}
         return d
 
-    def _one_select(self, case, perm=None, names=None):
+    def _one_select(self, case, perm=None, names=None, keep=None):
         M = _mods()
         pg, bvmat, gp, ntrait = self._world(case, perm, names)
-        store = {}
-        rng = RecRNG(case["seed"])                  # the protocol's own generator
         stray = RecRNG(case["seed"] + 1)            # stands in for the module-level global generator
-        if case["algo"] == "sorting":
-            so, mo = self._recording_sorting(store), None
+        if keep is not None and keep.get("prot") is not None:
+            # ONE protocol object used for a second select() on another population
+            prot, rng, store = keep["prot"], keep["rng"], keep["store"]
+            store.clear()
         else:
-            st = self._stub_algo(case, store)
-            so, mo = st, st
-        prot = self._protocol(case, ntrait, so, mo, rng, self._ndset(case))
+            store = {}
+            rng = RecRNG(case["seed"])                  # the protocol's own generator
+            if case["algo"] == "sorting":
+                so, mo = self._recording_sorting(store, case), None
+            else:
+                st = self._stub_algo(case, store)
+                so, mo = st, st
+            prot = self._protocol(case, ntrait, so, mo, rng, self._ndset(case))
+            if keep is not None:
+                keep.update(prot=prot, rng=rng, store=store)
+        mark = len(rng.log)
         misc = {}
         # since fix 166b95e8 select() hands the protocol's generator to the configuration; any draw that
         # still reaches the module-level global generator (the pre-repair rng=None path) lands on `stray`
         with _patch(M["mixin"], "global_prng", stray):
-            cfg = prot.select(pgmat=pg, gmat=pg, ptdf=None, bvmat=bvmat, gpmod=gp, t_cur=0, t_max=1, miscout=misc)
-        log = [e for e in rng.log]
+            cfg = prot.select(pgmat=pg, gmat=self._gmat_of(case, pg), ptdf=None, bvmat=bvmat, gpmod=gp, t_cur=0, t_max=1,
+                              miscout=misc)
+        log = [e for e in rng.log[mark:]]
         enc = case["enc"]
         b = _base_enc(enc)
         decn = cfg.xconfig_decn
         r = {"xconfig": [[int(v) for v in row] for row in cfg.xconfig],
              "decn": [canon.enc(float(v)) for v in decn] if b == "real" else [int(v) for v in decn],
              "log": log,
-             "names": [str(pg.taxa[i]) for i in range(pg.ntaxa)],
+             "names": [str(pg.taxa[i]) for i in range(pg.ntaxa)] if pg.taxa is not None else
+             (list(case["names2"]) if perm is not None else list(case["names"])),
              "nmating": [int(v) for v in cfg.nmating], "nprogeny": [int(v) for v in cfg.nprogeny],
              "design_ok": bool(cfg.ncross == case["ncross"] and cfg.nparent == case["nparent"] and _same_pop(cfg.pgmat, pg)),
              "has_soln": ("sosoln" in misc) or ("mosoln" in misc),
@@ -723,6 +1102,20 @@ class C07(Prop):
             r["xmap"] = [[int(v) for v in row] for row in cfg.xconfig_xmap]
         if "single_obj" in store:
             r["single_obj"] = [canon.enc(v) for v in store["single_obj"]]
+            r["space"] = store["space"]
+            r["full_obj"] = [None if v is None else canon.enc(v) for v in store["full_obj"]]
+        # two-object aliasing: the configuration's decision is (a view of) a row of the solution object handed
+        # out through miscout; sampling must leave the solution as the optimiser returned it
+        soln0 = misc.get("sosoln", misc.get("mosoln"))
+        if soln0 is not None and case["algo"] == "stub":
+            want = numpy.array([[float(Fraction(v)) for v in d] for d in case["soln_decn"]], dtype=float)
+            r["soln_untouched"] = bool(numpy.array_equal(numpy.asarray(soln0.soln_decn, dtype=float), want))
+            before = numpy.array(cfg.xconfig_decn, copy=True)
+            again = cfg.sample_xconfig(return_xconfig=True)     # a second configuration from the same object
+            r["again"] = [[int(v) for v in row] for row in again]
+            r["again_log"] = [e for e in rng.log[mark + len(log):]]
+            r["again_untouched"] = bool(numpy.array_equal(before, cfg.xconfig_decn)
+                                        and numpy.array_equal(numpy.asarray(soln0.soln_decn, dtype=float), want))
         soln = misc.get("sosoln", misc.get("mosoln"))
         if soln is not None and case["algo"] == "stub":
             tv = prot.ndset_trans(soln.soln_obj, **prot.ndset_trans_kwargs) if case.get("nobj", 1) > 1 else None
@@ -730,10 +1123,206 @@ class C07(Prop):
         return r
 
     def _run_select(self, case):
-        obs = {"a": self._one_select(case)}
-        if case["algo"] == "sorting":
-            obs["b"] = self._one_select(case, case["perm"], case["names2"])
+        keep = {} if case.get("reuse") else None
+        obs = {"a": self._one_select(case, keep=keep)}
+        if case["algo"] == "sorting" or case.get("reuse"):
+            obs["b"] = self._one_select(case, case["perm"], case["names2"], keep=keep)
         return obs
+
+    # -- history: ONE configuration object, sampled repeatedly, its decision re-assigned in between --------
+    @staticmethod
+    def _decn_matrix(enc, decns, dtype, layout):
+        """the decisions as rows of one 2-D array (what a Solution object holds); `layout` decides the memory
+        order, so a row is a contiguous or a strided view"""
+        b = _base_enc(enc)
+        if b == "real":
+            mat = numpy.array([[float(Fraction(v)) for v in d] for d in decns], dtype=float)
+        else:
+            mat = numpy.array([[int(v) for v in d] for d in decns], dtype=(dtype or "int64"))
+        if layout == "F":
+            mat = numpy.asfortranarray(mat)
+        elif layout == "strided":
+            big = numpy.zeros((mat.shape[0], 2 * mat.shape[1] + 1), dtype=mat.dtype)
+            big[:, 1::2] = mat
+            mat = big[:, 1::2]
+        return mat
+
+    def _run_history(self, case):
+        M = _mods()
+        enc = case["enc"]
+        cls = M["cfgcls"][enc]
+        rng = RecRNG(case["seed"], case.get("script"))
+        pg = _pgmat(case["ntaxa"])
+        mat = self._decn_matrix(enc, case["decns"], case.get("dtype"), case.get("layout"))
+        snap = mat.copy()
+        nm = case.get("nmating", 1)
+        kw = dict(ncross=case["ncross"], nparent=case["nparent"],
+                  nmating=numpy.array(nm) if isinstance(nm, list) else nm, nprogeny=1, pgmat=pg,
+                  xconfig_decn=mat[0], rng=None if case.get("rng_none") else rng)
+        obs = {}
+        xm = None
+        if enc.startswith("mate_"):
+            xmap = self._xmap(case)
+            xm = numpy.array(xmap, dtype=int).reshape(len(xmap), case["nparent"])
+            if case.get("xmap_order") == "F":
+                xm = numpy.asfortranarray(xm)
+            kw["xconfig_xmap"] = xm
+            obs["xmap"] = xmap
+        xm_snap = None if xm is None else xm.copy()
+        cur = 0
+        samples = []
+        kept = []               # earlier results and copies of them: a later sample must not rewrite an earlier table
+        mark = 0
+        # rng=None (the default of the optional argument) means the module-level global generator
+        with _patch(M["mixin"], "global_prng", rng):
+            cfg = cls(**kw)
+
+        def record(tab, returned_ok=True):
+            nonlocal mark
+            samples.append({"cur": cur, "xconfig": [[int(v) for v in r] for r in tab], "log": rng.log[mark:],
+                            "returned_ok": bool(returned_ok)})
+            mark = len(rng.log)
+            kept.append((tab, numpy.array(tab, copy=True)))
+        record(cfg.xconfig)
+        for st in case["steps"]:
+            if st == "sample":
+                out = cfg.sample_xconfig(return_xconfig=True)
+                record(cfg.xconfig, out is not None and numpy.array_equal(out, cfg.xconfig))
+            elif st == "sample_nr":
+                out = cfg.sample_xconfig(return_xconfig=False)
+                record(cfg.xconfig, out is None)
+            elif st == "read":              # read-only properties between samples
+                _ = (cfg.xconfig_decn, cfg.ncross, cfg.nparent, cfg.nmating, cfg.nprogeny, cfg.pgmat)
+            elif st.startswith("set"):
+                cur = int(st[3:])
+                cfg.xconfig_decn = mat[cur]
+            else:
+                raise ValueError(st)
+        obs["samples"] = samples
+        obs["decn_untouched"] = bool(numpy.array_equal(mat, snap) and numpy.array_equal(cfg.xconfig_decn, snap[cur])
+                                     and (xm is None or numpy.array_equal(xm, xm_snap)))
+        obs["earlier_tables_intact"] = all(numpy.array_equal(a, b) for a, b in kept)
+        nmv = nm if isinstance(nm, list) else [nm] * case["ncross"]
+        obs["design_ok"] = bool(cfg.ncross == case["ncross"] and cfg.nparent == case["nparent"] and _same_pop(cfg.pgmat, pg)
+                                and [int(v) for v in cfg.nmating] == nmv)
+        return obs
+
+    # -- problem: the decision space every protocol class hands to its optimiser ------------------------
+    def _run_problem(self, case):
+        pg, bvmat, gp, ntrait = self._world(case)
+        prot = self._protocol(case, ntrait, None, None, numpy.random.RandomState(case["seed"] % 1000), {})
+        prob = prot.problem(pgmat=pg, gmat=self._gmat_of(case, pg), ptdf=None, bvmat=bvmat, gpmod=gp, t_cur=0, t_max=1)
+        b = _base_enc(case["enc"])
+        ds = numpy.asarray(prob.decn_space)
+        lo, up = numpy.asarray(prob.decn_space_lower), numpy.asarray(prob.decn_space_upper)
+        obs = {"ndecn": int(prob.ndecn), "nobj": int(prob.nobj), "nineqcv": int(prob.nineqcv), "neqcv": int(prob.neqcv),
+               "space_shape": list(ds.shape), "space_kind": ds.dtype.kind, "lower_kind": lo.dtype.kind, "upper_kind": up.dtype.kind,
+               "lower": [canon.enc(float(v)) for v in lo], "upper": [canon.enc(float(v)) for v in up]}
+        if b == "subset":
+            obs["space"] = [int(v) for v in ds]
+        else:
+            obs["space_rows"] = [[canon.enc(float(v)) for v in r] for r in ds]
+        xm = getattr(prob, "decn_space_xmap", None)
+        if xm is not None:
+            obs["xmap"] = [[int(v) for v in r] for r in numpy.asarray(xm)]
+        # the problem can be evaluated at a point of its own space: three vectors of the declared lengths
+        if b == "subset":
+            x = numpy.array([obs["space"][i % len(obs["space"])] for i in range(prob.ndecn)])
+        else:
+            x = up.copy()
+        ev = prob.evalfn(x)
+        obs["eval_lens"] = [int(numpy.asarray(v).size) for v in ev]
+        return obs
+
+    @staticmethod
+    def _problem_expect(case):
+        """(nopt, ndecn, integer upper bound) of the as-is code, by family"""
+        fam, enc = case["family"], case["enc"]
+        b = _base_enc(enc)
+        n, nc, npar = case["ntaxa"], case["ncross"], case["nparent"]
+        mate = enc.startswith("mate_")
+        if mate:
+            nopt = math.comb(n, npar) if case.get("unique", True) else math.comb(n + npar - 1, npar)
+        else:
+            nopt = n
+        if b == "subset":
+            if mate:
+                ndecn = nc
+            else:
+                ndecn = npar if fam in ("random", "fam", "l2", "gb", "opv") else nc * npar
+            return nopt, ndecn, None
+        nm = case["nmating"] if isinstance(case["nmating"], list) else [case["nmating"]] * nc
+        npg = case["nprogeny"] if isinstance(case["nprogeny"], list) else [case["nprogeny"]] * nc
+        if b == "integer":
+            ub = {"random": sum(nm), "uc": nc * npar * max(nm), "embv": nc * npar * max(nm),
+                  "ohv": sum(a * b for a, b in zip(nm, npg))}.get(fam, n)
+        else:
+            ub = 1
+        return nopt, nopt, ub
+
+    def _problem_requests(self, case, obs):
+        b = _base_enc(case["enc"])
+        nopt, ndecn, ub = self._problem_expect(case)
+        reqs = [{"op": "c07.space", "subset": b == "subset", "nopt": nopt, "ndecn": ndecn, "ub": ub or 1}]
+        integral = all(Fraction(v).denominator == 1 and Fraction(v) >= 0 for v in canon.dec(obs["lower"]) + canon.dec(obs["upper"]))
+        obs["_integral"] = integral
+        if integral:
+            reqs.append({"op": "c07.spec_space", "subset": b == "subset", "nopt": nopt, "ndecn": obs["ndecn"],
+                         "space": obs.get("space", []), "lower": [int(Fraction(v)) for v in canon.dec(obs["lower"])],
+                         "upper": [int(Fraction(v)) for v in canon.dec(obs["upper"])]})
+        if case["enc"].startswith("mate_"):
+            reqs.append({"op": "c07.xmapix", "ntaxa": case["ntaxa"], "nparent": case["nparent"],
+                         "unique": bool(case.get("unique", True))})
+            if b == "subset":
+                reqs.append({"op": "c07.spec_cover", "cands": self._candidates(case), "xmap": obs.get("xmap", []),
+                             "space": obs.get("space", [])})
+        return reqs
+
+    def _judge_problem(self, case, obs, answers):
+        b = _base_enc(case["enc"])
+        mate = case["enc"].startswith("mate_")
+        nopt, ndecn, ub = self._problem_expect(case)
+        m = self._ok(answers[0])
+        i = 1
+        lower = [Fraction(v) for v in canon.dec(obs["lower"])]
+        upper = [Fraction(v) for v in canon.dec(obs["upper"])]
+        if obs["_integral"]:
+            spec = bool(self._ok(answers[i]))
+            i += 1
+        else:           # fractional bounds (not produced by the unchanged tree): the same clauses in Python
+            spec = (len(lower) == obs["ndecn"] == len(upper) and all(l <= u for l, u in zip(lower, upper))
+                    and b != "subset" and obs["ndecn"] == nopt and all(u > 0 for u in upper))
+        # dtype the problem constructors demand, and an evaluable problem
+        need_int = b in ("subset", "integer", "binary")
+        kinds_ok = (not need_int) or (obs["space_kind"] in "iu" and obs["lower_kind"] in "iu" and obs["upper_kind"] in "iu")
+        nobj = case.get("nobj", 1)
+        ncv = case.get("ncv") or [1 if case.get("constrained") else 0, 0]
+        eval_ok = len(obs["eval_lens"]) == 3 and obs["nobj"] == nobj \
+            and [obs["nineqcv"], obs["neqcv"]] == [int(ncv[0]), int(ncv[1])]
+        spec = spec and kinds_ok and eval_ok
+        corr = (obs["ndecn"] == m["ndecn"] and lower == [Fraction(v) for v in m["lower"]]
+                and upper == [Fraction(v) for v in m["upper"]])
+        if b == "subset":
+            corr = corr and obs.get("space") == m["space"]
+        else:
+            corr = corr and obs["space_shape"] == [2, nopt]
+        det = (f"problem[{case['family']}/{case['enc']}] ndecn={obs['ndecn']} lower={obs['lower'][:3]}.. upper={obs['upper'][:3]}.. "
+               f"model={ {k: (v[:3] if isinstance(v, list) else v) for k, v in m.items()} } space_ok={spec} dtypes_ok={kinds_ok} "
+               f"evaluable={eval_ok}")
+        if mate:
+            lx = self._ok(answers[i])
+            i += 1
+            xm_ok = obs.get("xmap") == lx
+            corr = corr and xm_ok
+            if b == "subset":
+                cover = bool(self._ok(answers[i]))
+                spec = spec and cover
+                det += f" covers_cross_map={cover}"
+            else:
+                # vector encodings: one variable per candidate cross of the population
+                spec = spec and sorted(map(tuple, map(sorted, obs.get("xmap", [])))) == sorted(map(tuple, lx))
+            det += f" xmap_is_model={xm_ok}"
+        return {"corr": corr, "spec": spec, "nontrivial": case["ntaxa"] >= 3, "detail": det}
 
     def run_impl(self, case):
         k = case["kind"]
@@ -741,6 +1330,10 @@ class C07(Prop):
             return self._run_cfg(case)
         if k == "select":
             return self._run_select(case)
+        if k == "history":
+            return self._run_history(case)
+        if k == "problem":
+            return self._run_problem(case)
         if k == "xmapix":
             M = _mods()
             return {"rows": [[int(v) for v in r] for r in M["array"].xmapix(case["ntaxa"], case["nparent"], bool(case["unique"]))]}
@@ -787,38 +1380,72 @@ class C07(Prop):
             return self._sample_spec_reqs(case["enc"], case["ncross"], case["nparent"], case["decn"], obs.get("xmap"),
                                           obs["log"], obs["xconfig"])
         if k == "select":
+            return self._select_requests(case, obs)
+        if k == "history":
             reqs = []
-            for key in ("a", "b"):
-                if key not in obs:
-                    continue
-                o = obs[key]
-                log = [e for e in o["log"]]
-                rr = self._sample_spec_reqs(case["enc"], case["ncross"], case["nparent"], o["decn"], o.get("xmap"),
-                                            log, o["xconfig"])
-                o["_nreq"] = len(rr)
+            for smp in obs["samples"]:
+                rr = self._sample_spec_reqs(case["enc"], case["ncross"], case["nparent"], case["decns"][smp["cur"]],
+                                            obs.get("xmap"), smp["log"], smp["xconfig"])
+                smp["_nreq"] = len(rr)
                 reqs += rr
-                if case["algo"] == "sorting":
-                    reqs.append({"op": "c07.sorting", "obj": o["single_obj"], "k": len(o["decn"])})
-                    reqs.append({"op": "c07.spec_topk", "obj": o["single_obj"], "k": len(o["decn"]),
-                                 "decn": o["decn"]})
-            if case["family"] in ("uc", "embv") and case["enc"] == "mate_integer":
-                nm = case["nmating"] if isinstance(case["nmating"], list) else [case["nmating"]] * case["ncross"]
-                reqs.append({"op": "c07.uc_bounds" if case["family"] == "uc" else "c07.embv_bounds", "ncross": case["ncross"], "nparent": case["nparent"],
-                             "nmating": nm, "nxmap": len(obs["a"]["xmap"])})
-            if case["family"] == "fam" and _base_enc(case["enc"]) != "subset":
-                reqs.append({"op": "c07.family_bounds", "nparent": case["nparent"], "ntaxa": case["ntaxa"]})
-            if case["algo"] == "stub" and case.get("nobj", 1) > 1:
-                o = obs["a"]
-                dec = [[int(Fraction(v) * 4) if _base_enc(case["enc"]) == "real" else int(v) for v in d]
-                       for d in case["soln_decn"]]
-                reqs.append({"op": "c07.mo_choice", "wt": canon.enc(Fraction(case["ndset_wt"])), "tvals": o["tvals"],
-                             "decns": dec})
-                if case["ndset_trans"] == "default":
-                    kw = case.get("ndset_kwargs") or {"obj_wt": [1] * case["nobj"], "vec_wt": [1] * case["nobj"]}
-                    reqs.append({"op": "c07.ndset_dist", "mat": case["soln_obj"], "obj_wt": kw["obj_wt"],
-                                 "vec_wt": kw["vec_wt"]})
             return reqs
+        if k == "problem":
+            return self._problem_requests(case, obs)
         raise ValueError(k)
+
+    def _select_requests(self, case, obs):
+        """tagged requests: obs["_tags"] lists, in order, what each driver answer is"""
+        reqs, tags = [], []
+
+        def add(tag, rr):
+            for r in (rr if isinstance(rr, list) else [rr]):
+                reqs.append(r)
+                tags.append(tag)
+        enc = case["enc"]
+        mate = enc.startswith("mate_")
+        for key in ("a", "b"):
+            if key not in obs:
+                continue
+            o = obs[key]
+            add(key + ".cfg", self._sample_spec_reqs(enc, case["ncross"], case["nparent"], o["decn"], o.get("xmap"),
+                                                    [e for e in o["log"]], o["xconfig"]))
+            if "again" in o:
+                add(key + ".again", self._sample_spec_reqs(enc, case["ncross"], case["nparent"], o["decn"], o.get("xmap"),
+                                                          [e for e in o["again_log"]], o["again"]))
+            if case["algo"] == "sorting":
+                add(key + ".sorting", {"op": "c07.sorting", "obj": o["single_obj"], "k": len(o["decn"])})
+                add(key + ".topk", {"op": "c07.spec_topk", "obj": o["single_obj"], "k": len(o["decn"]), "decn": o["decn"]})
+                cands = self._candidates(case)
+                xmap = o["xmap"] if mate else cands
+                add(key + ".cover", {"op": "c07.spec_cover", "cands": cands, "xmap": xmap, "space": o["space"]})
+                # the decision expressed as positions in the independent candidate list
+                loc = {tuple(t): i for i, t in enumerate(cands)}
+                pos = [loc.get(tuple(sorted(xmap[d])) if 0 <= d < len(xmap) else None) for d in o["decn"]]
+                o["_pos_full"] = pos
+                if all(v is not None for v in o["full_obj"]) and all(v is not None for v in pos):
+                    add(key + ".topk_full", {"op": "c07.spec_topk", "obj": o["full_obj"], "k": len(pos), "decn": pos})
+        if mate:
+            add("xmapix", {"op": "c07.xmapix", "ntaxa": case["ntaxa"], "nparent": case["nparent"],
+                           "unique": bool(case.get("unique", True))})
+        if case["family"] in ("uc", "embv") and enc == "mate_integer":
+            nm = case["nmating"] if isinstance(case["nmating"], list) else [case["nmating"]] * case["ncross"]
+            add("uc_bounds", {"op": "c07.uc_bounds" if case["family"] == "uc" else "c07.embv_bounds",
+                              "ncross": case["ncross"], "nparent": case["nparent"],
+                              "nmating": nm, "nxmap": len(obs["a"]["xmap"])})
+        if case["family"] == "fam" and _base_enc(enc) != "subset":
+            add("family_bounds", {"op": "c07.family_bounds", "nparent": case["nparent"], "ntaxa": case["ntaxa"]})
+        if case["algo"] == "stub" and case.get("nobj", 1) > 1:
+            o = obs["a"]
+            dec = [[int(Fraction(v) * case.get("real_den", 4)) if _base_enc(enc) == "real" else int(v) for v in d]
+                   for d in case["soln_decn"]]
+            add("mo_choice", {"op": "c07.mo_choice", "wt": canon.enc(Fraction(case["ndset_wt"])), "tvals": o["tvals"],
+                              "decns": dec})
+            if case["ndset_trans"] == "default":
+                kw = case.get("ndset_kwargs") or {"obj_wt": [1] * case["nobj"], "vec_wt": [1] * case["nobj"]}
+                add("ndset_dist", {"op": "c07.ndset_dist", "mat": case["soln_obj"], "obj_wt": kw["obj_wt"],
+                                   "vec_wt": kw["vec_wt"]})
+        obs["_tags"] = tags
+        return reqs
 
     # ------------------------------------------------------------------ judge
     @staticmethod
@@ -896,29 +1523,58 @@ class C07(Prop):
                         "detail": f"rejected input: model={m} impl={obs['error']}"}
             corr, spec, detail, share_only = self._judge_sample_spec(
                 case["enc"], case["ncross"], case["nparent"], obs["log"], obs["xconfig"], answers, case["decn"])
-            spec = spec and obs["decn_untouched"] and obs["design_ok"]
+            spec = spec and obs["design_ok"]
+            corr = corr and obs["decn_untouched"]      # not a clause of the statement: a broken correspondence only
             flat = [v for r in obs["xconfig"] for v in r]
             nontriv = (case["ncross"] >= 2 or case["nparent"] >= 2) and len(set(flat)) >= 2
             return {"corr": corr, "spec": spec, "nontrivial": nontriv, "share_only": share_only,
                     "detail": f"cfg[{case['enc']}] {detail} untouched={obs['decn_untouched']} design={obs['design_ok']}"}
         if k == "select":
             return self._judge_select(case, obs, answers)
+        if k == "history":
+            return self._judge_history(case, obs, answers)
+        if k == "problem":
+            return self._judge_problem(case, obs, answers)
         raise ValueError(k)
+
+    def _judge_history(self, case, obs, answers):
+        corr, spec, details, share_only = True, True, [], False
+        pos = 0
+        for j, smp in enumerate(obs["samples"]):
+            n = smp["_nreq"]
+            c, s, d, so = self._judge_sample_spec(case["enc"], case["ncross"], case["nparent"], smp["log"], smp["xconfig"],
+                                                   answers[pos:pos + n], case["decns"][smp["cur"]])
+            pos += n
+            share_only = share_only or so
+            corr = corr and c and smp["returned_ok"]
+            spec = spec and s
+            if not (c and s and smp["returned_ok"]):
+                details.append(f"sample {j} (decision {smp['cur']}={case['decns'][smp['cur']]}): {d} returned_ok={smp['returned_ok']}")
+        spec = spec and obs["design_ok"]
+        corr = corr and obs["earlier_tables_intact"] and obs["decn_untouched"]
+        flat = [v for smp in obs["samples"] for r in smp["xconfig"] for v in r]
+        return {"corr": corr, "spec": spec, "nontrivial": len(obs["samples"]) >= 2 and len(set(flat)) >= 2,
+                "share_only": share_only,
+                "detail": f"history[{case['enc']} dtype={case.get('dtype')} layout={case.get('layout')}] steps={case['steps']} "
+                          f"{len(obs['samples'])} samples; " + (" | ".join(details) if details else "all samples ok")
+                          + f" untouched={obs['decn_untouched']} design={obs['design_ok']} earlier_tables_intact={obs['earlier_tables_intact']}"}
 
     def _judge_select(self, case, obs, answers):
         enc = case["enc"]
+        mate = enc.startswith("mate_")
+        by = {}
+        for t, a in zip(obs["_tags"], answers):
+            by.setdefault(t, []).append(a)
         corr, spec, details = True, True, []
         share_only = False
-        pos = 0
         per = {}
+        lean_xmap = self._ok(by["xmapix"][0]) if mate else None
         for key in ("a", "b"):
             if key not in obs:
                 continue
             o = obs[key]
-            n = o["_nreq"]
             c, s, d, so = self._judge_sample_spec(enc, case["ncross"], case["nparent"], o["log"], o["xconfig"],
-                                                   answers[pos:pos + n], o["decn"])
-            pos += n
+                                                   by[key + ".cfg"], o["decn"])
             share_only = share_only or so
             # design parameters carried over
             nm = case["nmating"] if isinstance(case["nmating"], list) else [case["nmating"]] * case["ncross"]
@@ -929,29 +1585,55 @@ class C07(Prop):
             own = o["own_generator"] and o["stray_draws"] == 0
             c = c and own
             details.append(f"{key}: {d} design={design} draws_from_protocol_generator={own}")
+            if "again" in o:
+                # a second configuration sampled from the same object: same clauses, solution object untouched
+                c2, s2, d2, so2 = self._judge_sample_spec(enc, case["ncross"], case["nparent"], o["again_log"], o["again"],
+                                                          by[key + ".again"], o["decn"])
+                share_only = share_only or so2
+                c = c and c2 and o["soln_untouched"] and o["again_untouched"]
+                s = s and s2
+                if not (c2 and s2 and o["soln_untouched"] and o["again_untouched"]):
+                    details.append(f"{key}: second sample from the same configuration: {d2} solution_untouched="
+                                   f"{o['soln_untouched']}/{o['again_untouched']}")
+            if mate:
+                # the cross map of the configuration is the cross map of the passed population
+                xm_ok = o["xmap"] == lean_xmap
+                c = c and xm_ok
+                if not xm_ok:
+                    details.append(f"{key}: cross map differs from xmapix model: impl={o['xmap']} model={lean_xmap}")
             if case["algo"] == "sorting":
-                m = self._ok(answers[pos])
-                topk = self._ok(answers[pos + 1])
-                pos += 2
+                m = self._ok(by[key + ".sorting"][0])
+                topk = self._ok(by[key + ".topk"][0])
+                cover = self._ok(by[key + ".cover"][0])
                 so_vals = [Fraction(v) for v in canon.dec(o["single_obj"])]
                 same_vals = [so_vals[i] for i in m] == [so_vals[i] for i in o["decn"]]
                 distinct = len(set(so_vals)) == len(so_vals)
                 c = c and (m == o["decn"] if distinct else same_vals)
-                s = s and bool(topk)
-                details.append(f"{key}: sorting model={m} impl={o['decn']} topk={topk}")
+                c = c and o["space"] == list(range(len(self._candidates(case))))
+                s = s and bool(topk) and bool(cover)
+                details.append(f"{key}: sorting model={m} impl={o['decn']} topk={topk} "
+                               f"decision_space_covers_all_candidates={cover}")
+                if key + ".topk_full" in by:
+                    tf = self._ok(by[key + ".topk_full"][0])
+                    s = s and bool(tf)
+                    details.append(f"{key}: best among ALL {len(o['full_obj'])} candidates={tf}")
+                elif not cover:
+                    miss = [t for t, v in zip(self._candidates(case), o["full_obj"]) if v is None]
+                    details.append(f"{key}: candidates missing from the problem: {miss[:6]}")
+                else:
+                    s = False
+                    details.append(f"{key}: chosen decision {o['decn']} is not a candidate of the population")
                 per[key] = {"vals": sorted(so_vals[i] for i in o["decn"]), "distinct": distinct}
             corr = corr and c
             spec = spec and s
-        if case["family"] in ("uc", "embv") and enc == "mate_integer":
-            ub = self._ok(answers[pos])
-            pos += 1
+        if "uc_bounds" in by:
+            ub = self._ok(by["uc_bounds"][0])
             ubok = ("error" not in ub and ub.get("upper") == obs["a"].get("uc_upper")
                     and ub.get("lower") == obs["a"].get("uc_lower") and obs["a"].get("uc_int") is True)
             corr = corr and ubok
             details.append(f"uc integer upper bound model={ub.get('upper', ub.get('error'))} impl={obs['a'].get('uc_upper')}")
-        if case["family"] == "fam" and _base_enc(enc) != "subset":
-            fb = self._ok(answers[pos])
-            pos += 1
+        if "family_bounds" in by:
+            fb = self._ok(by["family_bounds"][0])
             corr = corr and "error" not in fb       # the implementation built its problem: so must the model
             details.append(f"family bounds model={fb}")
         nontriv = True
@@ -966,12 +1648,12 @@ class C07(Prop):
                 spec = spec and ok
                 details.append(f"independent criterion ok={ok}")
             # equivariance under permutation + relabelling
-            rnd = case["family"] == "random"      # the criterion itself is redrawn in every run
+            rnd = case["family"] in ("random", "embv")      # the criterion itself is redrawn / re-simulated in every run
             eq_vals = rnd or canon.close(per["a"]["vals"], per["b"]["vals"], rel=1e-9, abs_=1e-9)
             spec = spec and eq_vals
             details.append(f"chosen criterion values agree={eq_vals}")
             if per["a"]["distinct"] and not rnd:
-                if enc.startswith("mate_"):
+                if mate:
                     ca = sorted(tuple(sorted(case["names"][t] for t in a["xmap"][d])) for d in a["decn"])
                     inv = {case["names2"][i]: case["names"][case["perm"][i]] for i in range(case["ntaxa"])}
                     cb = sorted(tuple(sorted(inv[b["names"][t]] for t in b["xmap"][d])) for d in b["decn"])
@@ -989,35 +1671,42 @@ class C07(Prop):
             nobj = case.get("nobj", 1)
             dec_impl = [Fraction(v) for v in canon.dec(o["decn"])] if b == "real" else o["decn"]
             cand = [[Fraction(v) for v in d] for d in case["soln_decn"]]
+            if b == "subset":       # a subset decision is a set: the order of its members carries no meaning
+                dec_impl = sorted(dec_impl)
+                cand = [sorted(d) for d in cand]
             if nobj == 1:
                 ok = [Fraction(v) for v in dec_impl] == cand[0]
                 spec = spec and ok
                 details.append(f"decision is soln_decn[0]: {ok}")
                 nontriv = True
             else:
-                m = self._ok(answers[pos])
-                pos += 1
+                m = self._ok(by["mo_choice"][0])
                 wt = Fraction(case["ndset_wt"])
                 hit = [i for i, d in enumerate(cand) if d == [Fraction(v) for v in dec_impl]]
-                ix_impl = hit[0] if hit else None
                 if case["ndset_trans"] == "default":
-                    d2 = self._ok(answers[pos])
-                    pos += 1
+                    d2 = self._ok(by["ndset_dist"][0])
                     score = None if d2 is None else [float(wt) * math.sqrt(float(Fraction(v))) for v in canon.dec(d2)]
                 else:
                     mat = [[Fraction(v) for v in r] for r in case["soln_obj"]]
                     t = {"sum": lambda r: sum(r), "first": lambda r: r[0], "negmax": lambda r: -max(r)}[case["ndset_trans"]]
                     score = [float(wt * t(r)) for r in mat]
-                if score is None or ix_impl is None:
+                if score is None or not hit:
                     okmax = False
+                    ix_impl = hit[0] if hit else None
                 else:
                     mx = max(score)
-                    okmax = score[ix_impl] >= mx - 1e-9 * max(1.0, abs(mx))
+                    tol = 1e-9 * max(1.0, abs(mx))
+                    # duplicated decisions in the front: the configuration is right if ANY front member with
+                    # this decision maximises the preference transformation
+                    good = [i for i in hit if score[i] >= mx - tol]
+                    okmax = bool(good)
+                    ix_impl = good[0] if good else hit[0]
                 spec = spec and okmax
                 near_tie = score is not None and sum(1 for v in score if v >= max(score) - 1e-9 * max(1.0, abs(max(score)))) > 1
-                cm = m is not None and (m["ix"] == ix_impl or (near_tie and okmax))
+                cm = m is not None and (m["ix"] in hit or (near_tie and okmax))
                 corr = corr and cm
-                details.append(f"mo choice model={m} impl_ix={ix_impl} score={score} argmax_ok={okmax}")
+                details.append(f"mo choice model={m} impl_ix={ix_impl} score={score} argmax_ok={okmax}"
+                               + (f" cv={case['soln_cv']}" if case.get("soln_cv") else ""))
                 nontriv = len(cand) >= 2
         return {"corr": corr, "spec": spec, "nontrivial": nontriv, "share_only": share_only,
                 "detail": f"select[{case['family']}/{enc}/{case['algo']}] " + " | ".join(details)}
@@ -1042,12 +1731,12 @@ class C07(Prop):
         enc = case.get("enc") or ""
         b = _base_enc(enc)
         nslot = case.get("ncross", 0) * (1 if enc.startswith("mate_") else case.get("nparent", 0))
-        if case.get("kind") == "select" and isinstance(obs, dict) and "__exception__" in obs:
+        if case.get("kind") in ("select", "problem") and isinstance(obs, dict) and "__exception__" in obs:
             fam, exc, text = case.get("family"), obs["__exception__"], obs.get("text", "")
             if fam == "l2" and exc == "type" and "mkrwt" in text and "afreq" in text:
                 sig.update(site="L2NormGenomicSelection.problem", cond="from_gmat_called_without_mkrwt_afreq")
         if b == "integer" and isinstance(verdict, dict) and verdict.get("share_only"):
-            decs = [case["decn"]] if case.get("kind") == "cfg" else case.get("soln_decn", [])
+            decs = [case["decn"]] if case.get("kind") == "cfg" else case.get("soln_decn", case.get("decns", []))
             for d in decs:
                 tot = sum(int(v) for v in d)
                 if tot and nslot % tot != 0 and max(int(v) for v in d) >= 2:
@@ -1092,6 +1781,8 @@ class C07(Prop):
                     c = dict(case)
                     c["soln_decn"] = case["soln_decn"][:i] + case["soln_decn"][i + 1:]
                     c["soln_obj"] = case["soln_obj"][:i] + case["soln_obj"][i + 1:]
+                    if case.get("soln_cv"):
+                        c["soln_cv"] = case["soln_cv"][:i] + case["soln_cv"][i + 1:]
                     yield c
 
     # ------------------------------------------------------------------ self-test mutants
@@ -1219,12 +1910,126 @@ class C07(Prop):
 
         arr = M["array"]
         real_triudix = arr.triudix
+        import importlib
+        importlib_import = importlib.import_module
 
         def triudix_wrong(n, k):
             for t in real_triudix(n, k):
                 yield t[::-1]
 
+        # ---- round 3: one mutant per class of histories / options / sizes / magnitudes added to the generators
+        def feasible_misindexed(mod):
+            """multi-objective branch scores only the points without constraint violation but uses the position inside
+            the filtered array to index the unfiltered solution set (class of seeded change C07-c1)"""
+            cls = getattr(mod, mod.__name__.split(".")[-1])
+            orig_mosolve, orig_select = cls.mosolve, cls.select
+
+            def mosolve(self, *a, **kw):
+                out = orig_mosolve(self, *a, **kw)
+                self._c07_cv = numpy.asarray(out.soln_ineqcv).sum(1) + numpy.asarray(out.soln_eqcv).sum(1)
+                return out
+
+            def select(self, pgmat, gmat, ptdf, bvmat, gpmod, t_cur, t_max, miscout=None, **kwargs):
+                if self.nobj <= 1:
+                    return orig_select(self, pgmat, gmat, ptdf, bvmat, gpmod, t_cur, t_max, miscout=miscout, **kwargs)
+                real_trans = self.ndset_trans
+
+                def trans(mat, **kw):
+                    feas = numpy.flatnonzero(self._c07_cv <= 0.0)
+                    if len(feas) == 0:
+                        feas = numpy.arange(len(mat))
+                    ix = int((self.ndset_wt * real_trans(mat[feas], **kw)).argmax())
+                    out = numpy.zeros(len(mat))
+                    out[ix] = 1.0 if self.ndset_wt > 0 else -1.0
+                    return out
+                try:
+                    self._ndset_trans = trans
+                    return orig_select(self, pgmat, gmat, ptdf, bvmat, gpmod, t_cur, t_max, miscout=miscout, **kwargs)
+                finally:
+                    self._ndset_trans = real_trans
+            return _many(_patch(cls, "mosolve", mosolve), _patch(cls, "select", select))
+
+        OhvSubset = M["fam"][("ohv", "subset")]
+        orig_ohv_problem = OhvSubset.problem
+
+        def ohv_problem_prefix(self, pgmat, *a, **kw):
+            """decision space sized by the closed form comb(n,d)+n, right for d = 2 only (class of C07-b1)"""
+            prob = orig_ohv_problem(self, pgmat, *a, **kw)
+            if not self.unique_parents:
+                n = math.comb(pgmat.ntaxa, self.nparent) + pgmat.ntaxa
+                if n < len(prob.decn_space):
+                    prob._decn_space = prob.decn_space[:n]
+            return prob
+
+        ohv_probmod = importlib_import("pybrops.breed.prot.sel.prob.OptimalHaploidValueSelectionProblem")
+        ohv_probcls = [getattr(ohv_probmod, "OptimalHaploidValue%sSelectionProblem" % e) for e in ("Subset", "Integer", "Binary", "Real")]
+
+        def ohv_xmap_unique_only(ntaxa, nparent, unique_parents=True):
+            return numpy.array(list(arr.triudix(ntaxa, nparent)))
+
+        def options_cached(mod):
+            """the option pool is computed from the decision the object was constructed with and reused after the
+            decision has been re-assigned"""
+            cls = getattr(mod, mod.__name__.split(".")[-1])
+            orig = cls.sample_xconfig
+
+            def sample_xconfig(self, return_xconfig=True):
+                if getattr(self, "_c07_first", None) is None:
+                    self._c07_first = self._xconfig_decn
+                real = self._xconfig_decn
+                try:
+                    self._xconfig_decn = self._c07_first
+                    return orig(self, return_xconfig)
+                finally:
+                    self._xconfig_decn = real
+            return _patch(cls, "sample_xconfig", sample_xconfig)
+
+        def decision_rewritten(mod):
+            """sampling reorders the decision vector in place (it is a view of the solution object's row)"""
+            cls = getattr(mod, mod.__name__.split(".")[-1])
+            orig = cls.sample_xconfig
+
+            def sample_xconfig(self, return_xconfig=True):
+                out = orig(self, return_xconfig)
+                self._xconfig_decn[...] = numpy.roll(self._xconfig_decn, 1)
+                return out
+            return _patch(cls, "sample_xconfig", sample_xconfig)
+
+        binmod = M["cfgmod"]["binary"]
+
+        def binary_mask_lookup(self, return_xconfig=True):
+            """numpy.arange(n)[decn]: a mask lookup for bool vectors, fancy indexing for 0/1 integers (class of C07-b3)"""
+            options = numpy.arange(len(self.xconfig_decn))[self.xconfig_decn]
+            out = binmod.tiled_choice(options, size=(self.ncross, self.nparent), replace=False, rng=self.rng)
+            binmod.outcross_shuffle(out, rng=self.rng)
+            binmod.axis_shuffle(out, 0, rng=self.rng)
+            self.xconfig = out
+            if return_xconfig:
+                return out
+
+        def sorting_tolerant(self, prob, miscout=None, **kwargs):
+            """objective values within 1e-5 (relative) count as equal and are ordered by position"""
+            out = orig_min(self, prob, miscout=miscout, **kwargs)
+            ev = numpy.array([float(prob.evalfn(numpy.array([e]))[0][0]) for e in prob.decn_space])
+            q = numpy.round(ev / (1e-5 * max(1.0, float(numpy.abs(ev).max()))))
+            ix = numpy.argsort(q, kind="stable")
+            out.soln_decn = numpy.stack([prob.decn_space[ix[:prob.ndecn]]])
+            return out
+
+        MgrInt = M["fam"][("mgr", "integer")]
+
+        def problem_float_bounds(self, *a, **kw):
+            raise TypeError("ndarray 'decn_space' must have an integer dtype")
+
         muts = [
+            ("mo_choice_over_feasible_points_misindexed", lambda: _many(*[feasible_misindexed(M["protmod"][e]) for e in M["protmod"]])),
+            ("ohv_decision_space_is_a_prefix_of_the_cross_map", lambda: _patch(OhvSubset, "problem", ohv_problem_prefix)),
+            ("ohv_cross_map_ignores_unique_parents_false", lambda: _many(*[_patch(k, "_calc_xmap", staticmethod(ohv_xmap_unique_only)) for k in ohv_probcls])),
+            ("option_pool_cached_across_reassigned_decisions", lambda: _many(*[options_cached(M["cfgmod"][e]) for e in M["cfgmod"]])),
+            ("sampling_rewrites_the_decision_in_place", lambda: _many(*[decision_rewritten(M["cfgmod"][e]) for e in M["cfgmod"]])),
+            ("binary_decision_used_as_index_mask", lambda: _patch(M["cfgcls"]["binary"], "sample_xconfig", binary_mask_lookup)),
+            ("sorting_optimiser_with_tolerant_ties", lambda: _patch(Sorting, "minimize", sorting_tolerant)),
+            ("integer_problem_handed_float_bounds", lambda: _patch(MgrInt, "problem", problem_float_bounds)),
             ("decision_not_the_solution", lambda: _many(*[shifted_sosolve(M["protmod"][e]) for e in M["protmod"]])),
             ("sorting_ix_off_by_one", lambda: _patch(Sorting, "minimize", sorting_off_by_one)),
             ("mo_choice_argmin", lambda: _many(*[argmin_select(M["protmod"][e]) for e in M["protmod"]])),
